@@ -28,6 +28,59 @@ WRAPPED_LOCALLY = {
 ERROR_LISTS = ("errors", "uncaught_errors", "output_errors", "underlying_errors")
 
 
+def check_then_use(fn: ast.AST) -> List[Tuple[ast.AST, ast.AST]]:
+    """(membership test, offending load) pairs: a subscript load D[k] reachable from the non-member side of 'k in D' /
+    'k not in D' without D[k] being defined, k or D being rebound, or the function being left in between."""
+    tests = [n for n in ast.walk(fn) if isinstance(n, ast.Compare) and len(n.ops) == 1 and isinstance(n.ops[0], (ast.NotIn, ast.In))]
+    if not tests:
+        return []
+    cfg = CFG(fn)
+    out: List[Tuple[ast.AST, ast.AST]] = []
+    for t in tests:
+        k, D = source.src(t.left), source.src(t.comparators[0])
+        tn = [n for n in cfg.nodes if n.kind == "test" and n.ast is t]
+        if not tn:
+            continue
+        lab = "T" if isinstance(t.ops[0], ast.NotIn) else "F"
+        succ = [m_ for (m_, l) in tn[0].succ if l == lab]
+        knames = {x.id for x in ast.walk(t) if isinstance(x, ast.Name)}
+
+        def kills(n) -> bool:
+            a = n.ast
+            if a is None:
+                return False
+            if n.kind == "for" and isinstance(a, ast.For):
+                return bool({x.id for x in ast.walk(a.target) if isinstance(x, ast.Name)} & knames)
+            if n.kind not in ("stmt", "with"):
+                return False
+            for x in ast.walk(a):
+                if isinstance(x, (ast.Assign, ast.AugAssign, ast.AnnAssign)):
+                    tg = x.targets if isinstance(x, ast.Assign) else [x.target]
+                    for tt in tg:
+                        if isinstance(tt, ast.Subscript) and source.src(tt.value) == D and source.src(tt.slice) == k:
+                            return True
+                        if any(isinstance(y, ast.Name) and isinstance(y.ctx, ast.Store) and y.id in knames for y in ast.walk(tt)):
+                            return True
+                if isinstance(x, ast.Call) and isinstance(x.func, ast.Attribute) and x.func.attr in ("setdefault", "update") \
+                        and source.src(x.func.value) == D:
+                    return True
+            return False
+        blocked = [n for n in cfg.nodes if kills(n)]
+        r = cfg.reach(succ, blocked=blocked, ignore_labels=("exc",))
+        for n in cfg.nodes:
+            if n.id not in r or n.ast is None or n.kind not in ("stmt", "test"):
+                continue
+            for x in ast.walk(n.ast):
+                if isinstance(x, ast.Subscript) and isinstance(x.ctx, ast.Load) and source.src(x.value) == D and source.src(x.slice) == k:
+                    # a load inside a try that catches KeyError is guarded
+                    guarded = any(isinstance(a, ast.Try) and any(x is y for st in a.body for y in ast.walk(st)) and any(
+                        h.type is None or "KeyError" in source.src(h.type) or source.src(h.type) == "Exception" for h in a.handlers)
+                        for a in source.ancestors(x))
+                    if not guarded:
+                        out.append((t, x))
+    return out
+
+
 def run(ctx) -> None:
     ctx.explanation = (
         "Rejection clause and structural parts of the DSL 2.0 compiler: explicit-raise escape analysis of "
@@ -43,6 +96,11 @@ def run(ctx) -> None:
     ctx.rule("C06.R5-ignore-list-scope", "parameter references may stay unresolved only inside a component's own body and only for that component's variables (plus 'replica')")
     ctx.rule("C06.R6-scope-match-by-component", "OutputReference.split binds a reference to the step whose location is a prefix of the "
              "reference's location component by component (tuple elements), never as text ('gen' is a textual prefix of 'gen-data')")
+    ctx.rule("C06.R8-no-use-after-failed-membership-test", "where the compiler tests 'k not in D' to record an error, no path from the "
+             "failing side reaches an unguarded D[k]: the implicit KeyError would leave namespace_to_flowir as a bare exception "
+             "instead of a DSLInvalidError that lists the location")
+    ctx.rule("C06.R7-default-only-when-absent", "a parameter's declared default is stored only when the argument is absent (a membership "
+             "test on the arguments of the scope): a supplied 0, '', {} or null is an argument, not a missing one")
     ctx.rule("C06.R4-unique-names", "component names are numbered over the ordered components and every name is checked against the names already used")
     ctx.assume("implicit exceptions (KeyError, pydantic internals) are outside the model; FlowIRConcrete mutators called on the freshly built "
                "description are assumed not to raise except FlowIRComponentExists, which R4 excludes")
@@ -233,6 +291,48 @@ def run(ctx) -> None:
     ctx.ob("C06.R5-ignore-list-scope", rpr, ok, "replace_parameter_references only adds 'replica' to the ignore list" if ok else
            "replace_parameter_references adds other names than 'replica' to the ignore list", construct="variables.add('replica') only")
 
+    # ---------------- R7 -------------------------------------------------------------------------------
+    fold = d.func("ScopeStack.Scope.fold_in_defaults_of_parameters")
+    ctx.analysed(fold)
+    cf = CFG(fold)
+    stores = [n for n in cf.nodes if n.kind == "stmt" and isinstance(n.ast, ast.Assign) and isinstance(n.ast.targets[0], ast.Subscript)
+              and source.src(n.ast.targets[0].value).endswith(".parameters")]
+    ctx.floor("C06.R7-default-only-when-absent", len(stores), 1, "stores of a default into the scope's parameters")
+    for st in stores:
+        tgt = st.ast.targets[0]
+        D, k = source.src(tgt.value), source.src(tgt.slice)
+        absent = match.test_nodes(cf, lambda t: ("T" if isinstance(t.ops[0], ast.NotIn) else "F") if (
+            isinstance(t, ast.Compare) and len(t.ops) == 1 and isinstance(t.ops[0], (ast.In, ast.NotIn))
+            and source.src(t.left) == k and source.src(t.comparators[0]) == D) else None)
+        ok = bool(absent) and match.only_via_edges(cf, st, absent)
+        ctx.ob("C06.R7-default-only-when-absent", st.ast, ok,
+               "the default is stored only when '%s not in %s'" % (k, D) if ok else
+               "the default of a parameter is stored although the argument may be present (no '%s not in %s' guard; a truthiness "
+               "test such as 'not %s.get(%s)' also replaces a supplied 0, '', {} or null by the default), and the wrong value is "
+               "forwarded down the whole call chain" % (k, D, D, k), construct="%s <- %s not in %s" % (short(st.ast, 50), k, D))
+
+    # ---------------- R8 -------------------------------------------------------------------------------
+    n8 = 0
+    for q, f in d.functions.items():
+        if "." in q and q.split(".")[-2] in d.functions and False:
+            continue
+        hits = check_then_use(f)
+        n8 += sum(1 for n in ast.walk(f) if isinstance(n, ast.Compare) and len(n.ops) == 1 and isinstance(n.ops[0], (ast.In, ast.NotIn)))
+        seen_ = set()
+        for (t, x) in hits:
+            if (t.lineno, x.lineno) in seen_:
+                continue
+            seen_.add((t.lineno, x.lineno))
+            ctx.analysed(f)
+            ctx.ob("C06.R8-no-use-after-failed-membership-test", x, False,
+                   "%s tests '%s' and, on the side where the key is missing, still evaluates %s: the KeyError is not a "
+                   "DSLInvalidError - e.g. a component whose command.environment is '%%(nope)s' with no such parameter makes "
+                   "namespace_to_flowir raise KeyError('nope') instead of reporting the location" % (q, short(t, 50), short(x, 40)),
+                   construct="%s: %s after %s" % (q, short(x, 40), short(t, 40)))
+    ctx.ob("C06.R8-no-use-after-failed-membership-test", d.tree, True, "%d membership tests inspected in dsl.py" % n8,
+           construct="membership tests of dsl.py", trivial=True)
+    ctx.floor("C06.R8-no-use-after-failed-membership-test", n8, 20, "membership tests in dsl.py")
+
     # ---------------- R6 -------------------------------------------------------------------------------
     sp = d.func("OutputReference.split")
     ctx.analysed(sp)
@@ -332,10 +432,15 @@ def _carries_location(fn: ast.AST, v: ast.AST) -> Tuple[bool, str]:
                 break
         # guarded by isinstance(v, DSLInvalidFieldError)
         for a in source.ancestors(v):
-            if isinstance(a, ast.If) and isinstance(a.test, ast.Call) and call_name(a.test) == "isinstance" and len(a.test.args) == 2 \
-                    and isinstance(a.test.args[0], ast.Name) and a.test.args[0].id == v.id and "DSLInvalidFieldError" in source.src(a.test.args[1]) \
-                    and any(v is x for s_ in a.body for x in ast.walk(s_)):
-                return True, "is checked to be a DSLInvalidFieldError"
+            if isinstance(a, ast.If):
+                t, positive = a.test, True
+                while isinstance(t, ast.UnaryOp) and isinstance(t.op, ast.Not):
+                    t, positive = t.operand, not positive
+                if isinstance(t, ast.Call) and call_name(t) == "isinstance" and len(t.args) == 2 \
+                        and isinstance(t.args[0], ast.Name) and t.args[0].id == v.id and "DSLInvalidFieldError" in source.src(t.args[1]):
+                    side = a.body if positive else a.orelse
+                    if any(v is x for s_ in side for x in ast.walk(s_)):
+                        return True, "is checked to be a DSLInvalidFieldError"
             if a is fn:
                 break
         assigns = [n for n in source.walk_own(fn) if isinstance(n, ast.Assign) and any(isinstance(t, ast.Name) and t.id == v.id for t in n.targets)
